@@ -1,29 +1,36 @@
 /* Harnesses of the XML-writer part of C32. */
+/* vacuity guard (units xml.reach.*): with -DXML_REACH the end of each harness carries an assertion that must FAIL (be reachable) */
+#ifdef XML_REACH
+#define XML_REACHED __CPROVER_assert(0, "vacuity guard: the end of the harness is reachable");
+#else
+#define XML_REACHED
+#endif
 /* ghost indices are universally quantified: havoc them (file-scope objects start at 0 otherwise) */
 static void havoc_ghosts(void) {
   g_gi = nondet_int(); g_gs = nondet_int(); g_k = nondet_int();
-  g_n0 = nondet_int(); g_o_old = nondet_char();
+  g_n0 = nondet_int(); g_o_old = nondet_char(); g_c = nondet_char(); g_kind = nondet_int(); g_elen = nondet_int();
   g_i_pos = nondet_int(); g_i_next = nondet_int(); g_i_start = nondet_int(); g_i_rlen = nondet_int(); g_i_raw = nondet_bool();
   g_o_src = nondet_int(); g_o_start = nondet_int(); g_o_rlen = nondet_int(); g_o_raw = nondet_bool();
-  g_enc_calls = nondet_int(); g_enc_keep = nondet_bool(); g_found = nondet_ulong(); g_find_npos = nondet_bool();
+  g_enc_calls = nondet_int(); g_enc_keep = nondet_bool(); g_enc_src = nondet_ulong(); g_enc_dst = nondet_ulong(); g_found = nondet_ulong(); g_find_npos = nondet_bool();
   g_hl_valid = nondet_bool(); g_hl_i = nondet_int(); g_hl_r = nondet_int();
   g_f_calls = 0;
   condenseWhiteSpace = nondet_bool();
 }
 #ifdef HAVE_hexCharRefLength
-void h_hexCharRefLength(void) { const struct XStr* s; int i = nondet_int(); havoc_ghosts(); hexCharRefLength(s, i); }
+void h_hexCharRefLength(void) { const struct XStr* s; int i = nondet_int(); havoc_ghosts(); hexCharRefLength(s, i); XML_REACHED }
 #endif
-void h_EncodeString(void) { const struct XStr* s; struct XStr* o; bool keep = nondet_bool(); havoc_ghosts(); TiXmlBase_EncodeString(s, o, keep); }
+void h_EncodeString(void) { const struct XStr* s; struct XStr* o; bool keep = nondet_bool(); havoc_ghosts(); TiXmlBase_EncodeString(s, o, keep); XML_REACHED }
 void h_AttributePrint(void) {
   const struct XStr* name; const struct XStr* value; FILE* f; int depth = nondet_int(); struct XStr* str; struct XStr* n; struct XStr* v;
   havoc_ghosts(); g_enc_calls = 0;
   TiXmlAttribute_Print(name, value, f, depth, str, n, v);
+  XML_REACHED
 }
 
 /* ---- bounded companion (refutation aid): a concrete small input buffer, loops unwound, the real hexCharRefLength,
         the same postconditions as assertions ---- */
 #ifndef XML_BOUND
-#define XML_BOUND 7
+#define XML_BOUND 6
 #endif
 #ifdef XML_BOUNDED_HARNESS
 void h_EncodeString_bounded(void) {
@@ -39,10 +46,10 @@ void h_EncodeString_bounded(void) {
   char old_w0 = o.w[0];
   int calls0 = g_enc_calls;
   TiXmlBase_EncodeString(&s, &o, keep);
-  __CPROVER_assert(g_enc_calls == calls0 + 1 && g_enc_src == &s && g_enc_dst == &o && g_enc_keep == keep, "bounded EncodeString 1: call record");
+  __CPROVER_assert(g_enc_calls == calls0 + 1 && g_enc_src == XS_ID(&s) && g_enc_dst == XS_ID(&o) && g_enc_keep == keep, "bounded EncodeString 1: call record");
   __CPROVER_assert(g_n0 == olen && olen <= o.len && o.len <= olen + 6 * len, "bounded EncodeString 2: appends at most six characters per input character");
   __CPROVER_assert(!(o.wpos < olen) || o.w[0] == old_w0, "bounded EncodeString 3: earlier output unchanged");
-  __CPROVER_assert(XML_IN_FACT(in, len, &o, len, keep, condenseWhiteSpace), "bounded EncodeString 4: output is the concatenation of enc(c_i)");
+  __CPROVER_assert(XML_GI_CONST(in, len, keep, condenseWhiteSpace) && XML_IN_FACT(in, len, &o, len, keep, condenseWhiteSpace), "bounded EncodeString 4: output is the concatenation of enc(c_i)");
   __CPROVER_assert(!(0 <= g_gi && g_gi == len - 1) || XML_NEXT(len, &o) == o.len, "bounded EncodeString 4: the last encoding ends at the end of the output");
   __CPROVER_assert(XML_OUT_FACT(in, len, &o, keep), "bounded EncodeString 5: written by an escaping branch or copied from a well-formed hexadecimal reference");
   __CPROVER_assert(XML_SAFE_FACT(&o, keep), "bounded EncodeString 6: no raw < > in the output, no raw quote unless keepQuotes");
